@@ -163,7 +163,7 @@ def main():
                      "kind_free_text": "repository-specific static analysis over Python ast: program database, def-use/agreement rules, symbolic column-term evaluator for pandas pipelines, finite-domain abstract interpreter (decision tables), effect/alias analysis"}],
         "checks": checks,
         "not_applicable": na,
-        "notes": "All checks are static (ast only; hta is never imported or run). exit 0 pass, 1 VIOLATION, 2 ANALYSIS-ERROR (construct not understood / anchor vanished / instance floor missed). Repairs of genuine defects are the six fix: commits in /repo listed in known_findings.json.",
+        "notes": "All checks are static (ast only; hta is never imported or run). exit 0 pass, 1 VIOLATION, 2 ANALYSIS-ERROR (construct not understood / anchor vanished / instance floor missed). Repairs of genuine defects are the seven fix: commits in /repo listed in known_findings.json.",
     }
     json.dump(man, open(os.path.join(HERE, "MANIFEST.json"), "w"), indent=1)
     print(f"checks={len(checks)} not_applicable={len(na)}")
